@@ -27,8 +27,11 @@ META = {
 }
 
 IMPORTS = "From Verif Require Import Base.Word256 C07.Jumptable C07.Dispatch C07.Harness.\n"
-COQ_FILES = ["C07/Jumptable.v", "C07/JumptableProofs.v", "C07/Dispatch.v", "C07/Harness.v",
-             "C07/DispatchProofs.v", "C07/DenseProofs.v", "C07/PropsC07.v"]
+# GenConsts.v / GenJumptable.v are regenerated from /repo on every run (T-tie); Bridge.v proves the generated
+# kernels equal to the hand model; PropsSrc.v restates the table theorems about the generated definitions
+MODEL_FILES = ["C07/GenConsts.v", "C07/Jumptable.v", "C07/Dispatch.v", "C07/Harness.v"]
+PROOF_FILES = ["C07/JumptableProofs.v", "C07/DispatchProofs.v", "C07/DenseProofs.v", "C07/PropsC07.v"]
+TTIE_FILES = ["C07/JtSupport.v", "C07/GenJumptable.v", "C07/Bridge.v", "C07/PropsSrc.v"]
 
 ERR = {"_HasEmptyBuckets": 1, "_FindMagicFailure": 2, "RuntimeError": 3, "ZeroDivisionError": 4, "ValueError": 6}
 
@@ -414,7 +417,8 @@ def part_dispatch(ctx, model_ok):
                 if e == 0:
                     want, ok = ("revert",), o == ("revert",)
                 elif e == 1:
-                    want, ok = ("default",), o == ("default",)
+                    want = ("default", G.expected_default_log(data, value, bool(fb), evm.DEPLOYER))
+                    ok = o == want
                 else:
                     tgt = es[e - 2]
                     want = ("enter", G.expected_output(fns, tgt[3]))
@@ -427,10 +431,10 @@ def part_dispatch(ctx, model_ok):
                     ctx.violation(
                         "failing-input", "emitted dispatcher disagrees with spec_dispatch",
                         {"source": src, "config": cfg.name, "strategy": sname, "calldata": data.hex(), "value": value,
-                         "expected": [want[0]] + ([tgt[4], want[1].hex()] if e >= 2 else []),
-                         "observed": [o[0]] + ([o[1].hex()] if o[0] == "enter" else list(o[1:])),
+                         "expected": [want[0]] + ([tgt[4], want[1].hex()] if e >= 2 else [w.hex() for w in want[1:]]),
+                         "observed": [o[0]] + ([x.hex() if isinstance(x, bytes) else x for x in o[1:]]),
                          "entry_points": [[hex(x[0]), x[4], "payable" if x[1] else "nonpayable", x[2]] for x in es]},
-                        key=f"dispatch:{sname}")
+                        key=f"dispatch:{sname}:{kind}")
                     break
             if found:
                 break
@@ -446,6 +450,40 @@ def part_dispatch(ctx, model_ok):
         ctx.samples.append({"contract_functions": [e[4] for e in metas[ci][1]][:8],
                             "call": str(metas[ci][2][len(metas[ci][2]) // 2]), "spec": spec_out[ci][len(metas[ci][2]) // 2]})
     return len(distinct), found
+
+
+def part_corpus(ctx):
+    """Permanent scenario (fixed defect venom-sparse-empty-bucket-fallback-stack): __default__ observes
+    len(msg.data) >= 4; selectors falling in every bucket index incl. empty buckets, 0..5-byte calldata."""
+    from vlib.common import VERIF
+    from vyper.utils import method_id_int
+    path = VERIF / "corpus" / "fallback_selectors.vy"
+    if not path.exists():
+        return 0
+    src = path.read_text()
+    ids = {method_id_int(f"f{i}()") for i in range(4)}
+    datas = [bytes([0, 0, 0, s, 0]) for s in range(16)] + [bytes(n) for n in range(6)]
+    datas += [r.to_bytes(4, "big") + bytes(k) for r in range(16) for k in (0, 1)]
+    datas = [d for d in datas if not (len(d) >= 4 and int.from_bytes(d[:4], "big") in ids)]
+    n = 0
+    for cfg in strategy_configs(ctx.tier):
+        out = configs.compile_src(src, cfg, formats=("bytecode",))
+        ch = evm.Chain(cfg.evm)
+        addr = ch.deploy(bytes.fromhex(out["bytecode"][2:]))
+        for d in datas:
+            r = ch.call(addr, d, value=0)
+            n += 1
+            want = (1 if len(d) >= 4 else 0).to_bytes(32, "big")
+            got = evm.log_tuple(r.logs[0])[2] if (r.ok and len(r.logs) == 1) else None
+            if got != want:
+                ctx.violation("failing-input", "__default__ reached through the dispatcher observes a wrong len(msg.data) >= 4",
+                              {"source_file": str(path), "source": src, "config": cfg.name, "calldata": d.hex(), "value": 0,
+                               "expected": ["default", "x=" + str(len(d) >= 4)],
+                               "observed": ["ok" if r.ok else "revert", got.hex() if got else None]},
+                              key="venom-sparse-empty-bucket-fallback-stack")
+                return n
+    ctx.corr["corpus_fallback_selectors_calls"] = n
+    return n
 
 
 def replay(ctx):
@@ -472,27 +510,49 @@ def replay(ctx):
 def run(ctx):
     if ctx.replay:
         return replay(ctx)
+    from vlib import c07_jt2coq as T
     t = time.time()
-    b = ctx.coq_build(COQ_FILES)
-    ctx.log(f"coq build: {time.time() - t:.1f}s ok={b['ok']}")
-    model_ok = all((COQ / f).with_suffix(".vo").exists() for f in ("C07/Jumptable.v", "C07/Dispatch.v", "C07/Harness.v"))
-    if not b["ok"] and any(x in b.get("file", "") for x in ("Jumptable.v", "Dispatch.v", "Harness.v")) and "Proofs" not in b.get("file", ""):
-        model_ok = False
+    rejected = None
+    try:
+        (COQ / "C07" / "GenConsts.v").write_text(T.generate_consts())
+    except Exception as e:  # noqa  (fail closed; keep the model runnable for Search)
+        rejected = f"module constants: {e}"
+        (COQ / "C07" / "GenConsts.v").write_text(T.generate_consts(fallback=True))
+    gen_ok = False
+    try:
+        (COQ / "C07" / "GenJumptable.v").write_text(T.generate())
+        gen_ok = True
+    except Exception as e:  # noqa
+        rejected = rejected or f"{type(e).__name__}: {e}"
+    bm = ctx.coq_build(MODEL_FILES)
+    model_ok = bm["ok"]
+    b = bm
+    if model_ok:
+        b = ctx.coq_build(PROOF_FILES)
+        if b["ok"] and gen_ok:
+            b = ctx.coq_build(TTIE_FILES)
+    ctx.log(f"coq build: {time.time() - t:.1f}s ok={b['ok']} generated={gen_ok}")
     t = time.time()
     n1, found1 = part_tables(ctx, model_ok)
     ctx.log(f"tables: {n1} cases in {time.time() - t:.1f}s")
     t = time.time()
     n2, found2 = part_dispatch(ctx, model_ok)
     ctx.log(f"dispatch: {n2} distinct calls in {time.time() - t:.1f}s (evm part {ctx.corr.get('evm_seconds')}s)")
+    n3 = part_corpus(ctx)
+    found2 = found2 or any(v.get("key") == "venom-sparse-empty-bucket-fallback-stack" for v in ctx.violations)
+    if rejected and not (found1 or found2):
+        ctx.violation("translator-rejected", "c07_jt2coq cannot translate jumptable_utils.py: " + rejected, {"error": rejected})
     if not b["ok"] and not (found1 or found2):
         ctx.violation("theorem-broken", f"{b.get('failed_lemma')} in {b['file']}",
                       {"theorem": b.get("failed_lemma"), "file": b["file"], "coq_output": b["out"][-1500:]})
-    ctx.corr["evaluations"] = n1 + ctx.corr.get("dispatch_calls", 0)
+    ctx.corr["evaluations"] = n1 + ctx.corr.get("dispatch_calls", 0) + n3
     ctx.corr["distinct_nontrivial"] = n1 + n2
     ctx.corr["rule"] = ("tables: one case per (function, id set[, n]); dispatch: distinct (contract, strategy, evm, selector "
                         "prefix, calldata length, value) tuples; every call's expected outcome comes from spec_dispatch in Coq")
     ctx.trusted += ["Coq 8.16.1 kernel + vm_compute",
-                    "hand-written models coq/C07/Jumptable.v, Dispatch.v (tied by correspondence each run)",
+                    "tools/vlib/c07_jt2coq.py (translator for the four jumptable_utils kernels; output proved equal to the hand model in Bridge.v, "
+                    "and both compared with CPython on every run)",
+                    "hand-written models: Jumptable.v generate_dense/generate_sparse loops and Dispatch.v (tied by correspondence each run)",
                     "pyrevm as EVM; vyper.utils.method_id_int (keccak) for selectors; assembler label resolution (C16)"]
     ctx.assumptions += ["builder theorems hold under 'builder returned Ok' (RuntimeError for adversarial id sets: C20)",
                         "dense model: bucket locations and entry labels are abstract 16-bit identifiers",
